@@ -39,6 +39,7 @@ import (
 	"github.com/osrg/gobgp/v4/pkg/apiutil"
 	"github.com/osrg/gobgp/v4/pkg/config/oc"
 	"github.com/osrg/gobgp/v4/pkg/packet/bgp"
+	"github.com/osrg/gobgp/v4/pkg/packet/mrt"
 	"github.com/osrg/gobgp/v4/pkg/server"
 )
 
@@ -46,6 +47,15 @@ import (
 type pipeConn struct {
 	net.Conn
 	local, remote *net.TCPAddr
+	slowClose     bool // Close takes a moment (as the system call can): whoever waits for the connection to go runs first
+}
+
+func (c *pipeConn) Close() error {
+	err := c.Conn.Close()
+	if c.slowClose {
+		time.Sleep(time.Millisecond)
+	}
+	return err
 }
 
 func (c *pipeConn) LocalAddr() net.Addr  { return c.local }
@@ -136,8 +146,9 @@ func attrSummary(attrs []bgp.PathAttributeInterface) string {
 	return strings.Join(parts, ";")
 }
 
-func (p *fakePeer) reader() {
-	defer close(p.done)
+func (p *fakePeer) reader(conn net.Conn, done chan struct{}) {
+	// conn and done are THIS session's: a later (up ...) of the same peer replaces p.conn / p.done while this reader may still run
+	defer close(done)
 	for {
 		p.mu.Lock()
 		g := p.gate
@@ -146,7 +157,7 @@ func (p *fakePeer) reader() {
 			<-g // stalled: what the speaker writes now waits in its queue, where the sender coalesces it
 		}
 		hdr := make([]byte, bgp.BGP_HEADER_LENGTH)
-		if _, err := io.ReadFull(p.conn, hdr); err != nil {
+		if _, err := io.ReadFull(conn, hdr); err != nil {
 			p.mu.Lock()
 			p.closed = true
 			p.times = append(p.times, fmt.Sprintf("(%d closed)", int(time.Since(p.start).Seconds())))
@@ -161,7 +172,7 @@ func (p *fakePeer) reader() {
 			return
 		}
 		body := make([]byte, int(h.Len)-bgp.BGP_HEADER_LENGTH)
-		if _, err := io.ReadFull(p.conn, body); err != nil {
+		if _, err := io.ReadFull(conn, body); err != nil {
 			return
 		}
 		p.mu.Lock()
@@ -251,6 +262,9 @@ type world struct {
 	polGen   int
 	vrfGen   int
 	vrfs     map[string]bool
+	watchMu  sync.Mutex
+	watching bool
+	watch    map[string]string // prefix -> "source attrs": the best-path stream replayed (with the global option "watch")
 }
 
 func v4(s string) netip.Addr { return netip.MustParseAddr(s) }
@@ -391,6 +405,7 @@ func (w *world) up(n sx.Node) {
 	}
 	a, b := net.Pipe()
 	srv := &pipeConn{Conn: a, local: &net.TCPAddr{IP: w.local.AsSlice(), Port: 179}, remote: &net.TCPAddr{IP: p.addr.AsSlice(), Port: 30000}}
+	srv.slowClose, _ = hasOpt(w.global, 3, "slowclose")
 	p.conn = b
 	p.view = map[string]entry{}
 	p.closed, p.opened = false, false
@@ -398,7 +413,7 @@ func (w *world) up(n sx.Node) {
 	p.start = w.t0 // message instants are reported in scenario time
 	p.done = make(chan struct{})
 	open, hold := w.mkOpen(p, n)
-	go p.reader()
+	go p.reader(b, p.done)
 	if err := w.s.VerifPassConn(srv); err != nil {
 		w.out = append(w.out, "(passconn-error)")
 		return
@@ -722,6 +737,16 @@ func (w *world) obs() {
 		}
 		parts = append(parts, "(lookup "+strings.Join(lk, " ")+")")
 	}
+	if w.watching {
+		w.watchMu.Lock()
+		var ws []string
+		for k, v := range w.watch {
+			ws = append(ws, "("+k+" "+v+")")
+		}
+		w.watchMu.Unlock()
+		sort.Strings(ws)
+		parts = append(parts, "(watch "+strings.Join(ws, " ")+")")
+	}
 	// VPN: the global VPNv4 table and every VRF's view of it
 	var vpn []string
 	w.s.ListPath(apiutil.ListPathRequest{TableType: api.TableType_TABLE_TYPE_GLOBAL, Family: bgp.RF_IPv4_VPN}, func(prefix bgp.NLRI, paths []*apiutil.Path) {
@@ -921,6 +946,62 @@ func (w *world) step(n sx.Node) {
 			p.mu.Unlock()
 		}
 		synctest.Wait()
+	case "mrtdump":
+		// one TABLE_DUMPv2 dump of the global table, as the MRT writer produces it, serialised and read back with the mrt package
+		synctest.Wait()
+		bufs, err := w.s.VerifMrtDump()
+		if err != nil {
+			w.out = append(w.out, "(mrtdump serialize-error "+strings.ReplaceAll(err.Error(), " ", "_")+")")
+			return
+		}
+		var peers []*mrt.Peer
+		var recs []string
+		bad := ""
+		for _, b := range bufs {
+			if len(b) < mrt.MRT_COMMON_HEADER_LEN {
+				bad = "short-record"
+				break
+			}
+			h, err := mrt.ParseHeader(b[:mrt.MRT_COMMON_HEADER_LEN])
+			if err != nil || int(h.Len) != len(b)-mrt.MRT_COMMON_HEADER_LEN {
+				bad = "header"
+				break
+			}
+			m, err := mrt.ParseBody(b[mrt.MRT_COMMON_HEADER_LEN:], h)
+			if err != nil {
+				bad = "body-does-not-parse:" + strings.ReplaceAll(err.Error(), " ", "_")
+				break
+			}
+			switch v := m.Body.(type) {
+			case *mrt.PeerIndexTable:
+				peers = v.Peers
+			case *mrt.Rib:
+				if v.Family != bgp.RF_IPv4_UC {
+					continue
+				}
+				var es []string
+				for _, e := range v.Entries {
+					src, as := "?", uint32(0)
+					if int(e.PeerIndex) < len(peers) {
+						pp := peers[e.PeerIndex]
+						as = pp.AS
+						src = "local"
+						if pp.IpAddress.IsValid() && !pp.IpAddress.IsUnspecified() {
+							src = pp.IpAddress.String()
+						}
+					}
+					es = append(es, fmt.Sprintf("(%s %d %d %s)", src, as, e.PathIdentifier, attrSummary(e.PathAttributes)))
+				}
+				sort.Strings(es)
+				recs = append(recs, "("+v.Prefix.String()+" "+strings.Join(es, " ")+")")
+			}
+		}
+		sort.Strings(recs)
+		if bad != "" {
+			w.out = append(w.out, "(mrtdump unreadable "+bad+")")
+		} else {
+			w.out = append(w.out, "(mrtdump "+strings.Join(recs, " ")+")")
+		}
 	case "wait":
 		synctest.Wait()
 	case "sleep":
@@ -1144,6 +1225,30 @@ func runScenario(t *testing.T, line string) (out string) {
 		if err := s.StartBgp(context.Background(), &api.StartBgpRequest{Global: global}); err != nil {
 			w.out = append(w.out, "(startbgp-error)")
 			return
+		}
+		if ok, _ := hasOpt(g, 3, "watch"); ok {
+			// a consumer of the best-path stream (what FIB / BMP / MRT writers see): replay it into a table
+			w.watching, w.watch = true, map[string]string{}
+			wctx, cancel := context.WithCancel(context.Background())
+			defer cancel()
+			s.WatchEvent(wctx, server.WatchEventMessageCallbacks{OnBestPath: func(paths []*apiutil.Path, _ time.Time) {
+				w.watchMu.Lock()
+				defer w.watchMu.Unlock()
+				for _, p := range paths {
+					if p.Family != bgp.RF_IPv4_UC {
+						continue
+					}
+					if p.Withdrawal {
+						delete(w.watch, p.Nlri.String())
+						continue
+					}
+					src := "local"
+					if p.PeerAddress.IsValid() {
+						src = p.PeerAddress.String()
+					}
+					w.watch[p.Nlri.String()] = src + " " + attrSummary(p.Attrs)
+				}
+			}}, server.WatchBestPath(false))
 		}
 		for _, p := range sc.At(2).List[1:] {
 			w.peerConf[p.At(0).Atom] = w.neighbor(p)
